@@ -17,6 +17,7 @@ import (
 	"verif/internal/w05"
 	"verif/internal/w06"
 	"verif/internal/w08"
+	"verif/internal/w09"
 	"verif/internal/w10"
 	"verif/internal/w11"
 	"verif/internal/w13"
@@ -74,6 +75,7 @@ var registry = map[string]runner{
 	"C06/independence": w06.Run,
 	"C07/tree":         wtree.Run,
 	"C09/tree":         wtree.Run,
+	"C09/longchains":   w09.Run,
 	"C12/tree":         wtree.Run,
 	"C17/tree":         wtree.Run,
 	"C17/revisions":    w13.Revisions,
